@@ -2121,6 +2121,34 @@ class ResolveOverlappingDivisions(Expr):
         return dsk
 
 
+def _length_determining_input(expr):
+    """The input of the length preserving ``expr`` that has the same (partition)
+    lengths as its result
+
+    An elementwise operation matches the rows of its inputs by label within each
+    partition, i.e. the result has the union of the labels.  Returns None if the
+    inputs are not known to have the same rows.
+    """
+    if not isinstance(expr, Blockwise):
+        return max(expr.dependencies(), key=lambda dep: dep.npartitions)
+    deps = [dep for dep in expr.dependencies() if not expr._broadcast_dep(dep)]
+    if len(deps) == 1:
+        return deps[0]
+    if len({_length_root(dep)._name for dep in deps}) == 1:
+        return deps[0]
+    return None
+
+
+def _length_root(expr):
+    # Strip everything that is known to keep the rows of a single input
+    while isinstance(expr, Elemwise) and expr._is_length_preserving:
+        child = _length_determining_input(expr)
+        if child is None:
+            break
+        expr = child
+    return expr
+
+
 class Lengths(Expr):
     """Returns a tuple of partition lengths"""
 
@@ -2135,8 +2163,9 @@ class Lengths(Expr):
 
     def _simplify_down(self):
         if isinstance(self.frame, Elemwise):
-            child = max(self.frame.dependencies(), key=lambda expr: expr.npartitions)
-            return Lengths(child)
+            child = _length_determining_input(self.frame)
+            if child is not None:
+                return Lengths(child)
 
     def _layer(self):
         name = "part-" + self._name
